@@ -70,7 +70,7 @@ Proof.
     + intros [(k & x & Hin & He)|[(x & [] & _)|(x & Hin & Hn & He)]].
       * exists x. split; [apply in_or_app; left; apply (in_map snd _ _ Hin)|]. split; [|exact He].
         destruct (proj2 Hd k x Hin) as [Hn _]. congruence.
-      * exists x. split; [apply in_or_app; right; apply in_rev in Hin; rewrite rev_involutive in Hin; exact Hin|auto].
+      * exists x. split; [apply in_or_app; right; apply in_rev in Hin; exact Hin|auto].
   - destruct (Hl s (or_introl eq_refl)) as [Ts Hns]. destruct (sname s) as [name|] eqn:En; [|congruence].
     unfold dict_combine in Hgo.
     destruct (combine match dict_get name d with Some old => old | None => s end s) as [c|] eqn:Ec; [|discriminate].
@@ -94,11 +94,16 @@ Proof.
           * exists k, x. split; [apply In_set_keep; assumption|exact He].
         + exists name, c. split; [apply In_set_new|]. apply (combine_equation _ _ _ e Ec). right. exact He. }
     rewrite STEP. split.
-    + intros [[H|H]|[(x & Hin & He)|H]]; auto.
+    + intros [[H|H]|[(x & Hin & He)|H]].
+      * left. exact H.
       * right. left. exists s. split; [left; reflexivity|exact H].
       * right. left. exists x. split; [right; exact Hin|exact He].
-    + intros [H|[(x & [->|Hin] & He)|H]]; auto.
-      right. left. exists x. auto.
+      * right. right. exact H.
+    + intros [H|[(x & [Ex|Hin] & He)|H]].
+      * left. left. exact H.
+      * subst x. left. right. exact He.
+      * right. left. exists x. split; [exact Hin|exact He].
+      * right. right. exact H.
 Qed.
 
 (* for tidy symbols the equations symbols_to_graph reads are the Some-equations *)
@@ -110,14 +115,34 @@ Proof.
   destruct (sequation s) as [e0|] eqn:Es.
   - destruct (emits s) eqn:Em.
     + rewrite Ts. cbn [In]. rewrite IH'. split.
-      * intros [->|(x & Hin & He)]; [exists s; split; [left; reflexivity|exact Es]|exists x; auto].
-      * intros (x & [->|Hin] & He); [left; congruence|right; exists x; auto].
+      * intros [E0|(x & Hin & He)]; [subst e0; exists s; split; [left; reflexivity|exact Es]|exists x; split; [right; exact Hin|exact He]].
+      * intros (x & [Ex|Hin] & He); [subst x; left; congruence|right; exists x; split; assumption].
     + destruct Ts as (E & _). congruence.
   - replace (match stype s with TEndogenous => equations_of l | _ => equations_of l end) with (equations_of l) by (destruct (stype s); reflexivity).
     rewrite IH'. split.
-    + intros (x & Hin & He). exists x. auto.
-    + intros (x & [->|Hin] & He); [congruence|exists x; auto].
+    + intros (x & Hin & He). exists x. split; [right; exact Hin|exact He].
+    + intros (x & [Ex|Hin] & He); [subst x; congruence|exists x; split; assumption].
 Qed.
+
+Lemma merge_go_named_tidy out l : forall d, tinv d -> (forall s, In s l -> tidy s /\ sname s <> None) -> merge_go l d [] = Ret out ->
+  forall s, In s out -> tidy s /\ sname s <> None.
+Proof.
+  induction l as [|s l IH]; intros d Hd Hl' Hgo x Hin; cbn [merge_go] in Hgo.
+  - inversion Hgo; subst out. rewrite app_nil_r in Hin. unfold dict_values in Hin. apply in_map_iff in Hin as ([k x'] & E & Hin).
+    cbn [snd] in E. subst x'. destruct (proj2 Hd k x Hin) as [Hn Tx]. split; [exact Tx|congruence].
+  - destruct (Hl' s (or_introl eq_refl)) as [Ts Hns]. destruct (sname s) as [name|] eqn:En; [|congruence].
+    unfold dict_combine in Hgo.
+    destruct (combine match dict_get name d with Some old => old | None => s end s) as [c|] eqn:Ec; [|discriminate].
+    assert (Tx : tidy match dict_get name d with Some old => old | None => s end).
+    { destruct (dict_get name d) as [old|] eqn:Eg; [apply (proj2 Hd name old (dict_get_In _ _ _ Eg))|exact Ts]. }
+    apply (IH (dict_set name c d)); [|intros y Hy; apply Hl'; right; exact Hy|exact Hgo|exact Hin].
+    split; [apply set_nodup, (proj1 Hd)|]. intros k y Hy. destruct (In_set _ _ _ _ _ Hy) as [[-> ->]|Hy']; [|apply (proj2 Hd), Hy'].
+    split; [|apply (combine_tidy _ _ _ Tx Ts Ec)]. destruct (combine_ret _ _ _ Ec) as (Hn & _). rewrite Hn.
+    destruct (dict_get name d) as [old|] eqn:Eg; [apply (proj2 Hd name old (dict_get_In _ _ _ Eg))|exact En].
+Qed.
+
+Lemma tinv_nil : tinv [].
+Proof. split; [constructor|intros k s []]. Qed.
 
 Theorem merge_equations by_eq out :
   (forall s, In s (concat by_eq) -> tidy s /\ sname s <> None) ->
@@ -125,27 +150,132 @@ Theorem merge_equations by_eq out :
   forall e, In e (equations_of out) <-> In e (equations_of (concat by_eq)).
 Proof.
   intros Hl Hm e. unfold merge_symbols in Hm.
-  pose proof (merge_go_equations (concat by_eq) [] [] out (conj (NoDup_nil _) (fun k s (H : In (k, s) []) => match H with end)) Hl Hm e) as M.
-  assert (Tout : forall s, In s out -> tidy s /\ sname s <> None).
-  { (* the output of a merge of named tidy symbols: table values only *)
-    clear M e. revert Hm. generalize (@nil (string * symbol)) at 1 3.
-    assert (G : forall l d, tinv d -> (forall s, In s l -> tidy s /\ sname s <> None) -> merge_go l d [] = Ret out ->
-                forall s, In s out -> tidy s /\ sname s <> None).
-    { induction l as [|s l IH]; intros d Hd Hl' Hgo x Hin; cbn [merge_go] in Hgo.
-      - inversion Hgo; subst out. rewrite app_nil_r in Hin. unfold dict_values in Hin. apply in_map_iff in Hin as ([k x'] & E & Hin).
-        cbn [snd] in E. subst x'. destruct (proj2 Hd k x Hin) as [Hn Tx]. split; [exact Tx|congruence].
-      - destruct (Hl' s (or_introl eq_refl)) as [Ts Hns]. destruct (sname s) as [name|] eqn:En; [|congruence].
-        unfold dict_combine in Hgo.
-        destruct (combine match dict_get name d with Some old => old | None => s end s) as [c|] eqn:Ec; [|discriminate].
-        assert (Tx : tidy match dict_get name d with Some old => old | None => s end).
-        { destruct (dict_get name d) as [old|] eqn:Eg; [apply (proj2 Hd name old (dict_get_In _ _ _ Eg))|exact Ts]. }
-        apply (IH (dict_set name c d)); [|intros y Hy; apply Hl'; right; exact Hy|exact Hgo|exact Hin].
-        split; [apply set_nodup, (proj1 Hd)|]. intros k y Hy. destruct (In_set _ _ _ _ _ Hy) as [[-> ->]|Hy']; [|apply (proj2 Hd), Hy'].
-        split; [|apply (combine_tidy _ _ _ Tx Ts Ec)]. destruct (combine_ret _ _ _ Ec) as (Hn & _). rewrite Hn.
-        destruct (dict_get name d) as [old|] eqn:Eg; [apply (proj2 Hd name old (dict_get_In _ _ _ Eg))|exact En]. }
-    intros d0 Hgo. apply (G (concat by_eq) [] (conj (NoDup_nil _) (fun k s (H : In (k, s) []) => match H with end)) Hl). exact Hgo. }
+  pose proof (merge_go_equations (concat by_eq) [] [] out tinv_nil Hl Hm e) as M.
+  pose proof (merge_go_named_tidy out (concat by_eq) [] tinv_nil Hl Hm) as Tout.
   rewrite (equations_of_In out e (fun s Hs => proj1 (Tout s Hs))), (equations_of_In (concat by_eq) e (fun s Hs => proj1 (Hl s Hs))).
   split.
   - intros (x & Hin & He). destruct (proj1 M (ex_intro _ x (conj Hin (conj (proj2 (Tout x Hin)) He)))) as [(k & y & [] & _)|[H|(y & [] & _)]]. exact H.
   - intros H. destruct (proj2 M (or_intror (or_introl H))) as (x & Hin & _ & He). exists x. auto.
+Qed.
+
+(* ================================================================== scripts of several statements *)
+Lemma map_p_ok {A B} (f : A -> pres B) l : forall bs, map_p f l = POk bs -> Forall2 (fun a b => f a = POk b) l bs.
+Proof.
+  induction l as [|a l IH]; intros bs H; cbn [map_p] in H.
+  - inversion H. constructor.
+  - destruct (f a) as [b| |] eqn:Ea; cbn [pbind] in H; try discriminate.
+    destruct (map_p f l) as [bs'| |] eqn:El; cbn [pbind] in H; try discriminate. inversion H; subst. constructor; [exact Ea|apply IH; reflexivity].
+Qed.
+
+(* the symbols of one equation are all named *)
+Lemma equation_symbols_go_named eqn code terms : forall d fs d',
+  (forall k s, In (k, s) d -> sname s <> None) -> equation_symbols_go eqn code terms d fs = Ret d' ->
+  forall k s, In (k, s) d' -> sname s <> None.
+Proof.
+  induction terms as [|t rest IH]; intros d fs d' Hd Hgo; cbn [equation_symbols_go] in Hgo; [inversion Hgo; subst; exact Hd|].
+  assert (COMB : forall sym, sname sym = Some (tname t) ->
+            match dict_combine (tname t) sym d with Ret d0 => equation_symbols_go eqn code rest d0 fs | Raise e => Raise e end = Ret d' ->
+            forall k s, In (k, s) d' -> sname s <> None).
+  { intros sym Hs Hg. unfold dict_combine in Hg.
+    destruct (combine match dict_get (tname t) d with Some old => old | None => sym end sym) as [c|] eqn:Ec; [|discriminate].
+    refine (IH _ _ _ _ Hg). intros k s Hin. destruct (In_set _ _ _ _ _ Hin) as [[_ ->]|Hin']; [|apply (Hd k s Hin')].
+    destruct (combine_ret _ _ _ Ec) as (Hn & _). rewrite Hn.
+    destruct (dict_get (tname t) d) as [old|] eqn:Eg; [apply (Hd _ _ (dict_get_In _ _ _ Eg))|rewrite Hs; discriminate]. }
+  destruct (ttype t) eqn:Ety.
+  all: try (match type of Hgo with
+            | match dict_combine _ ?sym _ with _ => _ end = _ => apply (COMB sym eq_refl Hgo)
+            end).
+  - destruct (mem_string (tname t) fs); [apply (IH _ _ _ Hd Hgo)|].
+    refine (IH _ _ _ _ Hgo). intros k s Hin. destruct (In_set _ _ _ _ _ Hin) as [[_ ->]|Hin']; [discriminate|apply (Hd k s Hin')].
+  - apply (IH _ _ _ Hd Hgo).
+Qed.
+Lemma equation_symbols_named eqn code terms syms : equation_symbols eqn code terms = Ret syms -> forall s, In s syms -> sname s <> None.
+Proof.
+  unfold equation_symbols. destruct (equation_symbols_go eqn code terms [] []) as [d|] eqn:E; [|discriminate]. intros H; inversion H; subst.
+  intros s Hin. unfold dict_values in Hin. apply in_map_iff in Hin as ([k s'] & Es & Hin). cbn [snd] in Es. subst s'.
+  apply (equation_symbols_go_named eqn code terms [] [] d (fun k s (H0 : In (k, s) []) => match H0 with end) E k s Hin).
+Qed.
+
+(* what the parse of one de-normalised statement looks like *)
+Definition stmt_ok_q (lay : layout) (q : neq) : Prop :=
+  exists y ky ws r, q = mkNeq (NTerm y (IInt ky) :: ws) r /\ dq_ok lay q = true /\ neq_wf q = true /\ no_function_named y r = true.
+
+Lemma reparsed_symbols lay q syms : stmt_ok_q lay q -> parse_equation_M (denorm_text lay q) = POk syms ->
+  equations_of syms = [neq_text q] /\ forall s, In s syms -> tidy s /\ sname s <> None.
+Proof.
+  intros (y & ky & ws & r & -> & Hq & Hw & Hf) Hp. split; [apply (reparsed_equations lay y ky ws r syms Hq Hf Hp)|].
+  pose proof Hp as Hp0. rewrite (normal_form_fixed_point lay _ Hq) in Hp.
+  set (q := mkNeq (NTerm y (IInt ky) :: ws) r) in *.
+  destruct (equation_symbols (neq_text q) (neq_code q) (lneq_terms lay q)) as [l|] eqn:E; [|discriminate]. inversion Hp; subst l.
+  unfold dq_ok in Hq. apply andb_true_iff in Hq as [Hq _]. destruct (dq_ok_ws_parts lay y ky ws r Hq) as (_ & _ & _ & Hl & Hws & _).
+  assert (Hst : lstyle (lay y (IInt ky)) = SVar) by (unfold lhs_lay_ok in Hl; destruct (lstyle (lay y (IInt ky))); [reflexivity|discriminate|discriminate]).
+  assert (Hws0 : lay_terms lay TEndogenous ws = []).
+  { clear - Hws. induction ws as [|x l IH]; [reflexivity|]. cbn [forallb] in Hws. apply andb_true_iff in Hws as [Hx Hl].
+    destruct x; try discriminate. cbn [lay_terms lay_term tok_term]. apply IH, Hl. }
+  assert (G : lhs_guard y (lneq_terms lay q) = true).
+  { unfold lneq_terms, q. cbn [nlhs nrhs lay_terms lay_term]. rewrite Hws0, Hst. unfold lhs_guard. cbn [app forallb ttype tname style_type].
+    rewrite String.eqb_refl. apply (lhs_guard_terms lay y r Hf). }
+  assert (HE : has_type TEndogenous (lneq_terms lay q) = true).
+  { unfold lneq_terms, q. cbn [nlhs nrhs lay_terms lay_term]. rewrite Hst. reflexivity. }
+  destruct (equation_symbols_one _ _ y _ _ G HE E) as [_ Htidy].
+  intros s Hin. split; [apply Htidy, Hin|apply (equation_symbols_named _ _ _ _ E s Hin)].
+Qed.
+
+(* two well-formed normalised equations with the same text have the same ids on either side *)
+Lemma neq_text_ids q q' : neq_wf q = true -> neq_wf q' = true -> neq_text q = neq_text q' ->
+  nids (nlhs q) = nids (nlhs q') /\ nids (nrhs q) = nids (nrhs q').
+Proof.
+  intros W W' E. pose proof (neq_split q W) as S. rewrite E, (neq_split q' W') in S. inversion S as [[El Er]].
+  unfold neq_wf in W, W'. apply andb_true_iff in W as [W _]. apply andb_true_iff in W as [Wl Wr].
+  apply andb_true_iff in W' as [W' _]. apply andb_true_iff in W' as [Wl' Wr'].
+  rewrite <- (finditer_nflat _ Wl), <- (finditer_nflat _ Wr), <- (finditer_nflat _ Wl'), <- (finditer_nflat _ Wr'), El, Er. split; reflexivity.
+Qed.
+
+Lemma equations_of_concat_parts lay qs : forall by_eq,
+  Forall (stmt_ok_q lay) qs -> Forall2 (fun st b => parse_equation_M st = POk b) (map (denorm_text lay) qs) by_eq ->
+  equations_of (concat by_eq) = map neq_text qs /\ forall s, In s (concat by_eq) -> tidy s /\ sname s <> None.
+Proof.
+  induction qs as [|q qs IH]; intros by_eq Hq H2; cbn [map] in H2.
+  - inversion H2; subst. split; [reflexivity|intros s []].
+  - inversion H2 as [|? b ? bs Hp Hr]; subst. inversion Hq as [|? ? Hq1 Hqr]; subst.
+    destruct (reparsed_symbols lay q b Hq1 Hp) as [Eb Tb]. destruct (IH bs Hqr Hr) as [Er Tr].
+    cbn [concat map]. rewrite equations_of_app, Eb, Er. split; [reflexivity|].
+    intros s Hin. apply in_app_iff in Hin as [Hin|Hin]; [apply Tb, Hin|apply Tr, Hin].
+Qed.
+
+Theorem script_graph_edges lay qs s syms :
+  Forall (stmt_ok_q lay) qs ->
+  split_M s = (map (denorm_text lay) qs, None) ->
+  parse_model_nocheck s = POk syms ->
+  exists g, symbols_to_graph_M syms = Ret g /\
+    forall x n, is_edge g x n = true <-> exists q, In q qs /\ In n (nids (nlhs q)) /\ In x (nids (nrhs q)).
+Proof.
+  intros Hq Hs Hp. rewrite parse_model_by_statements, Hs in Hp. cbn [fst snd] in Hp.
+  destruct (map_p parse_equation_M (map (denorm_text lay) qs)) as [by_eq| |] eqn:Em; cbn [pbind finish_parse] in Hp; try discriminate.
+  destruct (merge_symbols by_eq) as [out|] eqn:Eg; cbn [of_outcome] in Hp; [|discriminate]. inversion Hp; subst out.
+  destruct (equations_of_concat_parts lay qs by_eq Hq (map_p_ok _ _ _ Em)) as [Ec Tc].
+  pose proof (merge_equations by_eq syms Tc Eg) as M.
+  assert (Wq : forall q, In q qs -> neq_wf q = true).
+  { intros q Hin. rewrite Forall_forall in Hq. destruct (Hq q Hin) as (? & ? & ? & ? & _ & _ & W & _). exact W. }
+  (* one token list of qs for every equation of the merged symbols *)
+  set (pick := fun e => find (fun q => String.eqb (neq_text q) e) qs).
+  assert (PK : forall e, In e (equations_of syms) -> exists q, pick e = Some q /\ In q qs /\ neq_text q = e).
+  { intros e He. apply M in He. rewrite Ec in He. apply in_map_iff in He as (q & E & Hin). unfold pick.
+    destruct (find (fun q0 => String.eqb (neq_text q0) e) qs) as [q0|] eqn:Ef.
+    - apply find_some in Ef as [Hin0 E0]. apply String.eqb_eq in E0. exists q0. auto.
+    - exfalso. pose proof (find_none _ _ Ef q Hin) as N. cbn beta in N. rewrite E, String.eqb_refl in N. discriminate. }
+  assert (EX : exists qs', map neq_text qs' = equations_of syms /\ forall q', In q' qs' -> In q' qs).
+  { clear M. induction (equations_of syms) as [|e l IH]; [exists []; split; [reflexivity|intros ? []]|].
+    destruct (PK e (or_introl eq_refl)) as (q & _ & Hin & E). destruct (IH (fun e' He' => PK e' (or_intror He'))) as (qs' & Em' & Hs').
+    exists (q :: qs'). split; [cbn [map]; rewrite E, Em'; reflexivity|]. intros q' [<-|H]; [exact Hin|apply Hs', H]. }
+  destruct EX as (qs' & Em' & Hsub).
+  assert (Wf' : forallb neq_wf qs' = true) by (apply forallb_forall; intros q' H'; apply Wq, Hsub, H').
+  exists (graph_of qs'). split; [apply (graph_total syms qs' (eq_sym Em') Wf')|].
+  intros x n. rewrite edges_exact. split.
+  - intros (q' & Hin' & Hn & Hx). exists q'. split; [apply Hsub, Hin'|auto].
+  - intros (q & Hin & Hn & Hx).
+    assert (He : In (neq_text q) (equations_of syms)) by (apply M; rewrite Ec; apply in_map; exact Hin).
+    rewrite <- Em' in He. apply in_map_iff in He as (q' & E & Hin').
+    destruct (neq_text_ids q' q (Wq q' (Hsub q' Hin')) (Wq q Hin) E) as [El Er].
+    exists q'. split; [exact Hin'|]. rewrite El, Er. auto.
 Qed.
